@@ -83,7 +83,7 @@ def ioread_map(ctx, lexpr):
                                  "input, Some(Ok(b)) -> b")
     OPT, RES = "std::option::Option", "std::result::Result"
     e = Opq("io_error")
-    la_fields = common.fields_of_type(lexpr, "parse::read::IoRead", lambda ty: ty == "std::option::Option<u8>")
+    la_fields = common.fields_of_type(lexpr, "parse::read::IoRead", lambda ty: ty == "std::option::Option<u8>" or ty.startswith("std::option::Option<(u8,"))
     if not la_fields:
         r.anchor_missing("the Option<u8> lookahead field of IoRead")
         return
